@@ -130,6 +130,9 @@ impl SignatureConverter<'_> {
                 1,
                 self.gen_impl_receiver(Span::call_site(), deps_lifetime.as_ref()),
             );
+            if deps_lifetime.is_none() {
+                super::tie_elided_output_to_impl(sig);
+            }
         }
     }
 
